@@ -103,7 +103,10 @@ namespace Dune
       pybind11::implicitly_convertible< pybind11::args, FV >();
       pybind11::implicitly_convertible< pybind11::buffer, FV >();
 
-      cls.def("copy", [](FV& , pybind11::args l) {
+      cls.def("copy", [](FV& self, pybind11::args l) {
+            // without arguments: a copy of the vector itself
+            if( l.size() == 0 )
+              return self;
             FV v(K(0));
             const std::size_t sz = std::min<std::size_t>( v.size(), l.size() );
             // should this fail in case the sizes do not match?
